@@ -804,11 +804,23 @@ def rejectCheck (op : String) (a : List String) (impl : String) : Option (Bool Ã
     if !extOk id && (commaSplit impl).any (fun s => s != "") then some (false, "ACCEPT neighbours of a malformed ID") else none
   | _, _ => none
 
+/-- fields of a case line travel escaped (`\\n`, `\\r`, `\\t`, `\\\\`): malformed IDs may contain those characters -/
+def unescField (s : String) : String :=
+  if !s.contains '\\' then s else
+  let rec go : List Char â†’ List Char â†’ List Char
+    | [], acc => acc.reverse
+    | '\\' :: 'n' :: r, acc => go r ('\n' :: acc)
+    | '\\' :: 'r' :: r, acc => go r ('\r' :: acc)
+    | '\\' :: 't' :: r, acc => go r ('\t' :: acc)
+    | '\\' :: c :: r, acc => go r (c :: acc)
+    | c :: r, acc => go r (c :: acc)
+  String.ofList (go s.toList [])
+
 partial def loop (h : IO.FS.Stream) (out : IO.FS.Stream) : IO Unit := do
   let line â† h.getLine
   if line.isEmpty then return ()
   let line := (line.dropEndWhile (fun c => c == '\n')).toString
-  match line.splitOn "\t" with
+  match (line.splitOn "\t").map unescField with
   | [] => out.putStrLn "U"
   | op :: rest =>
     if rest.isEmpty then out.putStrLn "U" else
